@@ -27,11 +27,15 @@ import (
 // knownExclusions maps known-finding keys to the generator shape that is
 // excluded by construction while the finding is listed.
 var knownExclusions = map[string]string{
-	"C03/split-over-projected-output-not-forked":          "split-over-projected-output",
-	"C01/runtime-panic:split-over-disabled-call-output":   "split-over-disabled-call-output",
-	"C01/typed-map-to-untyped-map-projection-null":        "typed-map-to-untyped-map",
-	"C16/struct-in-typed-map-position-in-fork-invocation": "struct-to-typed-map",
-	"C01/fork-of-twin-map-call-not-matched":               "twin-instance-feeds-split",
+	"C03/split-over-projected-output-not-forked":             "split-over-projected-output",
+	"C01/runtime-panic:split-over-disabled-call-output":      "split-over-disabled-call-output",
+	"C01/typed-map-to-untyped-map-projection-null":           "typed-map-to-untyped-map",
+	"C16/struct-in-typed-map-position-in-fork-invocation":    "struct-to-typed-map",
+	"C01/fork-of-twin-map-call-not-matched":                  "twin-instance-feeds-split",
+	"C03/stage-of-mapped-pipeline-runs-for-empty-collection": "mapped-pipeline-over-empty",
+	"C01/runtime-panic:TypeLookup.GetMap":                    "mapped-pipeline-over-map-with-map-member",
+	"C01/unresolved-merge-expression":                        "mapped-pipeline-constant-output",
+	"C01/pipeline-mapped-and-called-again":                   "mapped-pipeline-called-again",
 }
 
 func semCfg() *mrogen.ProgCfg {
@@ -55,8 +59,13 @@ func semCfg() *mrogen.ProgCfg {
 		// known_findings.json); the generator stays inside the envelope
 		// "stages mapped in the top pipeline over inputs, literals or
 		// direct stage outputs".
-		c.MapLevel = 1
+		// Since the defects met first with mapped pipelines are listed one
+		// by one (and excluded one by one above), pipelines that contain
+		// no map call are mapped too - in the top pipeline, over inputs,
+		// literals and direct stage outputs (no chained map calls).
+		c.MapLevel = 2
 		c.MapOnlyInTop = true
+		c.NoChainedMaps = true
 	}
 	switch os.Getenv("VERIF_LEVEL") {
 	case "0":
@@ -71,6 +80,10 @@ func semCfg() *mrogen.ProgCfg {
 	case "4t":
 		c.MapLevel = 2
 		c.MapOnlyInTop = true
+	case "5t":
+		c.MapLevel = 2
+		c.MapOnlyInTop = true
+		c.NoChainedMaps = true
 	case "3":
 		c.MapLevel = 1
 	case "4":
